@@ -4,3 +4,4 @@ import RaftWal.Props.C03
 #print axioms RaftWal.C03.usable_after_reopen
 #print axioms RaftWal.C03.recovery_usable_any_crash
 #print axioms RaftWal.C03.open_can_fail_outside_invariant
+#print axioms RaftWal.C03.recovery_total_and_writable_any_chain
